@@ -7,8 +7,8 @@
 (* and content tuples (cid) in order of first appearance, both numbered   *)
 (* when a record is read: versions are an injective function of the       *)
 (* content exactly when vid = cid on every record; such a record is       *)
-(* Minted(its content), any other Foreign(vid).  Configured versions      *)
-(* "init-<k>" are vid = cid = -k, i.e. Foreign(-k)... see ToSpec.         *)
+(* Minted(its content), any other record Foreign(1000 + vid).  Configured *)
+(* versions "init-<k>" are reported as vid = cid = -k, i.e. Foreign(k).   *)
 (* rvid = the vid of the version the request carried (0 = none).          *)
 (***************************************************************************)
 EXTENDS Publication, TLC, Json
